@@ -779,6 +779,11 @@ class SignedFunction(Function):
           self.ctx.new_unsolvable(node) for _ in self.signature.param_names
       ]
     defaults = dict(zip(self.signature.param_names[-len(defaults) :], defaults))
+    # `__defaults__` only describes the positional parameters; the defaults of
+    # keyword-only parameters live in `__kwdefaults__` and stay as they are.
+    for name in self.signature.kwonly_params:
+      if name in self.signature.defaults:
+        defaults[name] = self.signature.defaults[name]
     self.signature.defaults = defaults
 
   def _mutations_generator(
